@@ -2,4 +2,5 @@
 From Coq Require Import Extraction ExtrOcamlBasic ExtrOcamlString.
 From LC Require Import Common ImportDefs.
 Extraction "import_model.ml" empty_state remove_all_models clear_origin_links resolve_imports has_unresolved_imports
-  flatten_precheck no_fixes fuel_bound scan_fuel owner_name mk_key not_cellml model_equals is_std.
+  flatten_precheck no_fixes fuel_bound scan_fuel owner_name mk_key not_cellml model_equals is_std
+  norm_sep path_from_url normalise_path resolve_path import_key new_base.
